@@ -192,6 +192,21 @@ def rule_hc12(prog):
         guard = any(isinstance(c, App) and c.op == 'in' and
                     c.args[0] == val and not pol for (c, pol) in p.pc)
         if not guard:
+            # `TABLE.get(value) is None`
+            for (c, pol) in p.pc:
+                if isinstance(c, App) and c.op == 'cmp' and \
+                        c.args[0].v in ('is', '==', 'is not', '!='):
+                    a, b = c.args[1], c.args[2]
+                    if isinstance(b, App) and b.op == 'dictget':
+                        a, b = b, a
+                    if isinstance(a, App) and a.op == 'dictget' and \
+                            len(a.args) >= 2 and a.args[1] == val and \
+                            (len(a.args) == 2 or
+                             a.args[2] == Const(None)) and \
+                            b == Const(None) and \
+                            pol == (c.args[0].v in ('is', '==')):
+                        guard = True
+        if not guard:
             # the other spelling of a miss: `try: return TABLE[value]` left
             # through `except KeyError`
             vname = tnew.node.args.args[1].arg if len(
